@@ -90,7 +90,7 @@ def draw_workload(data, el):
 
 def shards(ctx):
     n = 12 if ctx.quick else 48
-    return [{'index': i} for i in range(n)]
+    return [{'mode': 'panel', 'index': i} for i in range(len(PANEL))] + [{'mode': 'drawn', 'index': i} for i in range(n)]
 
 
 def run_shard(ctx, shard, acc):
@@ -108,13 +108,32 @@ def run_shard(ctx, shard, acc):
     groups = sorted(g for g, ts in group_users.items() if len(ts) >= 2)
     per = 1 if ctx.quick else 6
 
+    def explore_pair(wa, wb, rel):
+        # quick tier: the fixed panel is explored exhaustively up to 3200 lines per pair (three of the four pairs completely), drawn pairs are thinned to 400 schedules; thorough: everything exhaustively
+        res = run_pair(wa, wb, max_k=(400 if rel != 'panel' else 3200) if ctx.quick else None, offset=ctx.seed)
+        acc.evaluations += res['ran'] - 1
+        acc.case({'a': wa, 'b': wb, 'schedules': res['ran'], 'first_use_schedules': res['nontrivial']}, True,
+                 res['ran'])
+        acc.count('pairs-' + rel)
+        acc.count('schedules', res['ran'])
+        acc.count('schedules-at-first-use-lines', res['nontrivial'])
+        acc.extras['schedules'] = acc.extras.get('schedules', 0) + res['ran']
+        acc.extras['nontrivial_schedules'] = acc.extras.get('nontrivial_schedules', 0) + res['nontrivial']
+        if res['hung']:
+            acc.inconclusive += res['hung']
+        if res['n_bad']:
+            return F(wa, wb, res['bad'][0], res)
+        return None
+
+    if shard['mode'] == 'panel':
+        wa, wb = PANEL[shard['index']]
+        f = explore_pair(wa, wb, 'panel')
+        if f:
+            acc.fail(f, raise_=False)
+        return
+
     def body(data):
-        i = shard['index']
-        if i < len(PANEL) and not body.panel_done:
-            body.panel_done = True
-            wa, wb = PANEL[i]
-            rel = 'panel'
-        else:
+        if True:
             rel = data.draw(st.sampled_from(['same-type', 'same-type', 'same-class', 'shared-group', 'shared-group',
                                              'unrelated']))
             if rel == 'same-type':
@@ -131,20 +150,9 @@ def run_shard(ctx, shard, acc):
                 ea = data.draw(st.sampled_from(by_type[data.draw(st.sampled_from(types))]))
                 eb = data.draw(st.sampled_from(by_type[data.draw(st.sampled_from(types))]))
             wa, wb = draw_workload(data, ea), draw_workload(data, eb)
-        res = run_pair(wa, wb, max_k=500 if ctx.quick else None, offset=ctx.seed)
-        acc.evaluations += res['ran'] - 1
-        acc.case({'a': wa, 'b': wb, 'schedules': res['ran'], 'first_use_schedules': res['nontrivial']}, True,
-                 res['ran'])
-        acc.count('pairs-' + rel)
-        acc.count('schedules', res['ran'])
-        acc.count('schedules-at-first-use-lines', res['nontrivial'])
-        acc.extras['schedules'] = acc.extras.get('schedules', 0) + res['ran']
-        acc.extras['nontrivial_schedules'] = acc.extras.get('nontrivial_schedules', 0) + res['nontrivial']
-        if res['hung']:
-            acc.inconclusive += res['hung']
-        if res['n_bad']:
-            acc.fail(F(wa, wb, res['bad'][0], res))
-    body.panel_done = False
+        f = explore_pair(wa, wb, rel)
+        if f:
+            acc.fail(f)
     hyp_search(acc, body, mix(ctx.seed, 'C20', shard['index']), per, shrink=False)
 
 
